@@ -87,7 +87,22 @@ def smchart_writer_fields(ctx: Ctx) -> None:
     table = tuple(p.const("simfile.sm", "SM_CHART_PROPERTIES"))
     pcalls = [c for c in calls(fi) if is_msdparam(ctx, fi, c)]
     call = one(pcalls, f"MSDParameter construction in {fi.fq}")
-    elts = param_elts(fi, call)
+    # the components as they reach MSDParameter on the (single) path: temporaries resolved, comprehensions over constant names unrolled, displays spliced
+    from ..peff import _Fold
+    from .tables import closed as _closed, sums_of as _tsums
+    forms = {}
+    for s_ in _tsums(ctx, fi):
+        for i_, e_ in enumerate(s_.effects):
+            for x_ in (e_.value, e_.target):
+                if isinstance(x_, ast.AST):
+                    for c_ in ast.walk(x_):
+                        if isinstance(c_, ast.Call) and isinstance(c_.func, ast.Name) and c_.func.id == "MSDParameter" and len(c_.args) == 1:
+                            v_ = _Fold(lambda e: None, set()).visit(_closed(s_, c_.args[0], i_))
+                            forms[ast.unparse(v_)] = v_
+    if len(forms) == 1 and isinstance(next(iter(forms.values())), (ast.Tuple, ast.List)):
+        elts = list(next(iter(forms.values())).elts)
+    else:
+        elts = param_elts(fi, call)
     require(len(elts) >= 2, f"{fi.fq}: MSDParameter has no components")
     first = elts[0]
     ctx.expect("R-TABLE", fi, "param[0] == 'NOTES'", isinstance(first, ast.Constant) and first.value == "NOTES",
